@@ -282,6 +282,78 @@ def _axioms(ctx, block):
                     "relations": "monotone, convex(1/4,1/2,3/4), cash, bounds on every pair / sample"})
 
 
+@family
+def es_long(ctx, block):
+    """Expected shortfall on LONG samples (N = 9..11, so that p N is a non-integer above 2 and the
+    tail holds several outcomes plus a fractional one): every sample over a 2-3 symbol alphabet
+    (full product, up to 3^11 columns), bounds, monotone in p, and convexity over a fixed family of
+    pairs: every sample x paired with its rotations y = column (j + r) mod M for the rotations r in
+    ``rot`` (so every sample meets |rot| partners; not the full square), t in {1/4, 1/2, 3/4}."""
+    dtype, scale, via = block["dtype"], block["scale"], block.get("via", "module")
+    cols = S.columns(block)
+    N, M = cols.shape
+    x = S.realise(cols, scale, dtype)
+    xd = x.to(torch.float64)
+    eps = S.eps_of(x)
+    site = (S.SITE if via == "module" else S.FSITE)["es"]
+    params = sorted(block["params"])
+    rots = [r % M for r in block["rot"] if r % M]
+
+    def mini(js, ps):
+        return {"N": N, "cols": [S.col_list(cols, j) for j in js], "params": ps, "scale": scale, "dtype": dtype,
+                "via": via, "rot": [1]}
+
+    def many(cls, n):
+        if n > 1:
+            ctx.viol_counts[(str(site), cls)] += n - 1
+
+    V, T = {}, {}
+    for p in params:
+        V[p] = S.evaluate("es", p, x, via=via, dim=0).to(torch.float64)
+        T[p] = S.tol_value("es", p, x)
+        ctx.tick(M, nontrivial=M)
+        if tuple(V[p].shape) != (M,) or V[p].isnan().any():
+            ctx.violation(site, "shape_or_nan:long", f"es(p={p}) on {tuple(x.shape)}: shape {tuple(V[p].shape)} or NaN",
+                          block=block)
+            return
+        mx, mn, mean = xd.amax(0), xd.amin(0), xd.mean(0)
+        t = T[p] + 2 * N * torch.finfo(torch.float64).eps * xd.abs().amax(0)
+        for name, viol in (("bound_above_minus_min", V[p] > -mn + t), ("bound_below_minus_max", V[p] < -mx - t),
+                           ("bound_below_minus_mean", V[p] < -mean - t)):
+            js = viol.nonzero().flatten()
+            if len(js):
+                ctx.violation(site, name + ":long", f"es(p={p}) on {xd[:, js[0]].tolist()} violates {name}",
+                              observed=float(V[p][js[0]]), block=mini([int(js[0])], [p]))
+                many(name + ":long", len(js))
+        ctx.outcome(("es_long", N, p, round(float(V[p].sum()), 6)))
+    for p1, p2 in zip(params[:-1], params[1:]):
+        js = (V[p2] - V[p1] > T[p1] + T[p2]).nonzero().flatten()
+        ctx.tick(M, nontrivial=M)
+        if len(js):
+            ctx.violation(site, "not_nonincreasing_in_p:long", f"es on {xd[:, js[0]].tolist()}: value at {p1} vs {p2}",
+                          observed=[float(V[p1][js[0]]), float(V[p2][js[0]])], block=mini([int(js[0])], [p1, p2]))
+            many("not_nonincreasing_in_p:long", len(js))
+    ar = torch.arange(M)
+    for r in rots:
+        jj = (ar + r) % M
+        y = x[:, jj]
+        for p in params:
+            for t in (0.25, 0.5, 0.75):
+                mix = t * x + (1 - t) * y
+                vm = S.evaluate("es", p, mix, via=via, dim=0).to(torch.float64)
+                rhs = t * V[p] + (1 - t) * V[p][jj]
+                slack = S.tol_value("es", p, mix) + t * T[p] + (1 - t) * T[p][jj] + S.input_rounding("es", p, mix) \
+                    + 2 * eps * (V[p].abs() + V[p][jj].abs())
+                ks = (~(vm <= rhs + slack)).nonzero().flatten()
+                ctx.tick(M, nontrivial=int((cols != cols[:, jj]).any(0).sum()))
+                if len(ks):
+                    k = int(ks[0])
+                    ctx.violation(site, "convex:long", f"es(p={p}): rho({t} x + {1 - t} y) > {t} rho(x) + {1 - t} rho(y); "
+                                  f"x = {xd[:, k].tolist()}, y = {xd[:, jj[k]].tolist()}", observed=float(vm[k]),
+                                  expected=float(rhs[k]), block=mini([k, int(jj[k])], [p]))
+                    many("convex:long", len(ks))
+
+
 # ----------------------------------------------------------------------------
 
 # isoelastic relative risk aversions: the logarithmic branch is a == 1 exactly; just below 1 the power law applies
@@ -368,7 +440,8 @@ def run(ctx):
              "call form; relations over ALL ordered pairs of samples of equal length (monotone for every pointwise "
              "dominating pair; convex at t=1/4 on ordered pairs (= 3/4 with roles swapped) and t=1/2 on unordered pairs), "
              "all (sample, c) for cash invariance, all (sample, k) for homogeneity, all adjacent parameter pairs, "
-             "bounds per sample; ES also on a mixed-magnitude alphabet; N<=3 again under torch.use_deterministic_algorithms(True).  evaluations = relation instances + base values; non-trivial = strictly dominating "
+             "bounds per sample; es_long: every sample of length 9..11 over 2-3 symbols x p in {.25,.3,.35} x a fixed rotation "
+             "family of partners (not the full square) for convexity; ES also on a mixed-magnitude alphabet; N<=3 again under torch.use_deterministic_algorithms(True).  evaluations = relation instances + base values; non-trivial = strictly dominating "
              "pairs / non-constant samples / finite mixtures")
     ctx.assume("one-sided slack = sum of the derived value tolerances (mc/models/risk_space.tol_value) of the "
                "evaluations involved + rounding of computed inputs (x+c, t x+(1-t) y)")
@@ -382,10 +455,22 @@ def run(ctx):
     ctx.alphabet("cash c/scale", CASH)
     ctx.alphabet("homogeneity k", HOMOG)
     bl = blocks(ctx)
+    long_blocks = []
+    for N, sym, via in ((9, 3, "functional"), (10, 3, "module"), (11, 3 if ctx.thorough else 2, "functional")):
+        Al = A[:3] if sym == 3 else [A[0], A[2]]
+        M = len(Al) ** N
+        long_blocks.append({"N": N, "A": Al, "params": [0.25, 0.3, 0.35], "scale": 1.0, "dtype": "float64", "via": via,
+                            "rot": [1, 7, len(Al) ** (N // 2), M // 2 + 1, M - 1]})
+    long_blocks.append({"N": 10, "A": [A[0], A[2]], "params": [0.25, 0.3, 0.35], "scale": 1.0, "dtype": "float32",
+                        "via": "module", "rot": [1, 2 ** 5, 2 ** 9 + 1]})
+    ctx.alphabet("long ES samples (N, symbols)", [[b["N"], b["A"]] for b in long_blocks])
     if ctx.quick:
         for b in bl:
             ctx.run("axioms", b)
+        for b in long_blocks:
+            ctx.run("es_long", b)
     else:
+        ctx.run_parallel("es_long", long_blocks)
         heavy = [b for b in bl if b["N"] >= 5]
         light = [b for b in bl if b["N"] < 5]
         # split the heavy blocks per parameter so that workers are balanced
